@@ -18,6 +18,7 @@ import (
 	"github.com/KevoDB/kevo/pkg/memtable"
 	"github.com/KevoDB/kevo/pkg/sstable"
 	"github.com/KevoDB/kevo/pkg/stats"
+	"github.com/KevoDB/kevo/pkg/verifhook"
 	"github.com/KevoDB/kevo/pkg/wal"
 )
 
@@ -168,10 +169,12 @@ func (m *Manager) Put(key, value []byte) error {
 			return err // Return ErrWALRotating for retry handling
 		}
 
+		verifhook.At("storage.put.after_wal")
 		// Add to MemTable
 		m.memTablePool.Put(key, value, seqNum)
 		m.lastSeqNum = seqNum
 
+		verifhook.At("storage.put.after_mem")
 		// Update memtable size estimate
 		m.stats.TrackMemTableSize(uint64(m.memTablePool.TotalSize()))
 
@@ -265,6 +268,7 @@ func (m *Manager) Delete(key []byte) error {
 			return err // Return ErrWALRotating for retry handling
 		}
 
+		verifhook.At("storage.delete.after_wal")
 		// Add deletion marker to MemTable
 		m.memTablePool.Delete(key, seqNum)
 		m.lastSeqNum = seqNum
@@ -383,8 +387,10 @@ func (m *Manager) ApplyBatch(entries []*wal.Entry) error {
 			return err // Return ErrWALRotating for retry handling
 		}
 
+		verifhook.At("storage.batch.after_wal")
 		// Apply each entry to the MemTable
 		for i, entry := range entries {
+			verifhook.At("storage.batch.between_inserts")
 			seqNum := startSeqNum + uint64(i)
 
 			switch entry.Type {
@@ -397,6 +403,7 @@ func (m *Manager) ApplyBatch(entries []*wal.Entry) error {
 			m.lastSeqNum = seqNum
 		}
 
+		verifhook.At("storage.batch.after_mem")
 		// Update memtable size
 		m.stats.TrackMemTableSize(uint64(m.memTablePool.TotalSize()))
 
@@ -420,6 +427,7 @@ func (m *Manager) FlushMemTables() error {
 	m.flushMu.Lock()
 	defer m.flushMu.Unlock()
 
+	verifhook.At("storage.flush.begin")
 	// Track operation
 	m.stats.TrackOperation(stats.OpFlush)
 
@@ -459,6 +467,7 @@ func (m *Manager) FlushMemTables() error {
 		}
 	}
 
+	verifhook.At("storage.flush.before_clear")
 	// Clear the immutable list - the MemTablePool manages reuse
 	m.immutableMTs = m.immutableMTs[:0]
 
@@ -549,24 +558,28 @@ func (m *Manager) rotateWAL() error {
 		m.rotating.Store(false)
 	}()
 
+	verifhook.At("storage.rotate.begin")
 	// Mark old WAL as rotating before creating new one
 	currentWAL := m.getWAL()
 	if currentWAL != nil {
 		currentWAL.SetRotating()
 	}
 
+	verifhook.At("storage.rotate.after_setrotating")
 	// Create a new WAL first before closing the old one
 	newWAL, err := wal.NewWAL(m.cfg, m.walDir)
 	if err != nil {
 		return fmt.Errorf("failed to create new WAL: %w", err)
 	}
 
+	verifhook.At("storage.rotate.after_newwal")
 	// Store the old WAL for proper closure
 	oldWAL := m.wal
 
 	// Atomically update the WAL reference using atomic pointer operations
 	atomic.StorePointer((*unsafe.Pointer)(unsafe.Pointer(&m.wal)), unsafe.Pointer(newWAL))
 
+	verifhook.At("storage.rotate.after_swap")
 	// Now close the old WAL after the new one is in place
 	if oldWAL != nil {
 		if err := oldWAL.Close(); err != nil {
@@ -577,6 +590,7 @@ func (m *Manager) rotateWAL() error {
 		}
 	}
 
+	verifhook.At("storage.rotate.after_close")
 	return nil
 }
 
@@ -632,9 +646,11 @@ func (m *Manager) Close() error {
 
 // scheduleFlush switches to a new MemTable and schedules flushing of the old one
 func (m *Manager) scheduleFlush() error {
+	verifhook.At("storage.scheduleflush")
 	// Get the MemTable that needs to be flushed
 	immutable := m.memTablePool.SwitchToNewMemTable()
 
+	verifhook.At("storage.scheduleflush.after_switch")
 	// Add to our list of immutable tables to track
 	m.immutableMTs = append(m.immutableMTs, immutable)
 
@@ -668,6 +684,7 @@ func (m *Manager) flushMemTable(mem *memtable.MemTable) error {
 	filename := fmt.Sprintf(sstableFilenameFormat, 0, fileNum, timestamp)
 	sstPath := filepath.Join(m.sstableDir, filename)
 
+	verifhook.At("storage.flushmem.before_writer")
 	// Create a new SSTable writer
 	writer, err := sstable.NewWriter(sstPath)
 	if err != nil {
@@ -764,6 +781,7 @@ func (m *Manager) flushMemTable(mem *memtable.MemTable) error {
 		return fmt.Errorf("failed to finish SSTable: %w", err)
 	}
 
+	verifhook.At("storage.flushmem.after_finish")
 	// Track bytes written to SSTable
 	m.stats.TrackBytes(true, bytesWritten)
 
@@ -778,6 +796,7 @@ func (m *Manager) flushMemTable(mem *memtable.MemTable) error {
 		return fmt.Errorf("failed to open SSTable: %w", err)
 	}
 
+	verifhook.At("storage.flushmem.before_publish")
 	// Add the SSTable to the list
 	m.mu.Lock()
 	m.sstables = append(m.sstables, reader)
